@@ -32,7 +32,7 @@ EXTRA_COVERAGE = {'exhaustive': lambda tier: tier == 'thorough',
 
 def floors(tier):
     return {'pairs:distinct-accepted': 300, 'pairs:collision-refused': 5,
-            'sets:lifecycle': 15, 'dup-output:refused': 5, 'distinct_nontrivial': 300}
+            'sets:lifecycle': 15, 'dup-output:refused': 5, 'stemfam:accepted': 10, 'distinct_nontrivial': 300}
 
 
 def all_paths():
@@ -60,6 +60,19 @@ def cases(tier, seed):
             yield {'kind': 'pairs', 'backend': backend, 'pairs': gl[i:i + per], 'expect': 'accept'}
         for pq in bad:
             yield {'kind': 'pairs', 'backend': backend, 'pairs': [pq], 'expect': 'refuse'}
+    # families of stems that differ only by characters that also occur in the extension
+    # (cal.c / calc.c, a.cpp / app.cpp, c.c / cc.c ...): suffix-stripping slips collide these
+    fams = []
+    for base in ('cal', 'mis', 'a', 'x', 'ab', 'lib.c', 'h'):
+        for ext in ('.c', '.cpp'):
+            letters = sorted(set(ext))
+            stems = [base] + [base + l for l in letters] + [base + ext.strip('.')] + \
+                [base + ext + ext.strip('.')]
+            fams.append([st + ext for st in dict.fromkeys(stems)])
+    for backend in ('make', 'ninja'):
+        for fam in (fams if tier == 'thorough' else fams[:8]):
+            for d in ('', 'd/'):
+                yield {'kind': 'stemfam', 'backend': backend, 'srcs': [d + f for f in fam]}
     n = 30 if tier == 'quick' else 250
     for i in range(n):
         r = core.rng_for(seed, 'c05set', i)
@@ -316,7 +329,47 @@ def run_dup(case, res):
         core.rmtree(root)
 
 
+def run_stemfam(case, res):
+    backend = case['backend']
+    root = core.mkscratch('c05f')
+    try:
+        src, bld = os.path.join(root, 'src'), os.path.join(root, 'bld')
+        files = {p: 'int v_%d;\n' % k for k, p in enumerate(case['srcs'])}
+        files['build.bfg'] = 'executable(%r, files=[%s])\n' % (
+            'fam', ', '.join(repr(p) for p in case['srcs']))
+        try:
+            proj.write_tree(src, files)
+        except OSError:
+            res.exclude('file system refuses the name')
+            return
+        env = core.base_env(proj.stub_toolchain_env())
+        rc, out = proj.configure(src, bld, backend, env=env)
+        res.evaluations = 1
+        res.key(['stemfam', backend, case['srcs']], True)
+        if rc != 0:
+            res.violate((backend, 'distinct-sources-refused', 'stems-differ-by-extension-letters'),
+                        {'backend': backend, 'srcs': case['srcs'], 'output': out[-500:]})
+            return
+        with open(os.path.join(bld, 'compile_commands.json')) as f:
+            db = json.load(f)
+        outs = [os.path.normpath(os.path.join(e['directory'], e['output']))
+                for e in db if 'output' in e and e['output'].endswith('.o')]
+        if len(set(outs)) != len(case['srcs']):
+            res.violate((backend, 'two-sources-one-object', 'stems-differ-by-extension-letters'),
+                        {'backend': backend, 'srcs': case['srcs'],
+                         'objects': sorted(os.path.relpath(o, bld) for o in outs)})
+        for o in outs:
+            if not o.startswith(bld + os.sep):
+                res.violate((backend, 'output-outside-builddir'), {'backend': backend, 'output': o})
+        res.ev('stemfam:accepted')
+        res.sample = {'kind': 'stemfam', 'backend': backend, 'srcs': case['srcs'],
+                      'objects': sorted(os.path.relpath(o, bld) for o in outs)}
+    finally:
+        core.rmtree(root)
+
+
 def run_case(case):
     res = CaseResult()
-    {'pairs': run_pairs, 'set': run_set, 'dup': run_dup}[case['kind']](case, res)
+    {'pairs': run_pairs, 'set': run_set, 'dup': run_dup,
+     'stemfam': run_stemfam}[case['kind']](case, res)
     return res
